@@ -122,6 +122,8 @@ type Obs struct {
 	Procs    []procRec        `json:"procs"`
 	Readers  []readerRec      `json:"readers"`
 	After    []afterRec       `json:"after"`
+	Text     map[string]any   `json:"text,omitempty"`
+	FS       map[string]any   `json:"fs,omitempty"`
 
 	// not serialised: for replay files and finding matching
 	hist     []Cmd
